@@ -39,6 +39,7 @@ fn main() {
         "C08" => vh::router::props::c08(&mut ctx),
         "C09" => vh::router::props::c09(&mut ctx),
         "C10" => vh::router::props::c10(&mut ctx),
+        "C03" => vh::net::c03::run(&mut ctx),
         "C05" => vh::pure::c05::run(&mut ctx),
         "C06" => vh::pure::c06::run(&mut ctx),
         "C07" => vh::pure::c07::run_grammar(&mut ctx),
@@ -53,6 +54,7 @@ fn main() {
 fn replay(id: &'static str, leg: &str, case: &serde_json::Value) -> i32 {
     if leg.starts_with("ps-") { return vh::router::props::replay_ps(id, case); }
     if leg.ends_with("-direct") { return vh::router::props::replay_d(id, case); }
+    if id == "C03" { return vh::net::c03::replay(id, case); }
     if id == "C05" { return vh::pure::c05::replay(id, leg, case); }
     if id == "C07" && leg == "grammar" { return vh::pure::c07::replay(id, case); }
     if id == "C14" { return vh::pure::c14::replay(id, case); }
